@@ -133,6 +133,10 @@ class NatSource(io.BufferedIOBase):
         return True
 
     def readinto(self, b):
+        if self.calls > 400:
+            # the real code keeps asking a finished stream for data: a hang.  Stop the native run.
+            from .env import ReplayStop
+            raise ReplayStop("native run hangs: more than 400 readinto calls")
         mv = memoryview(b)
         avail = min(len(mv), len(self.data) - self.pos)
         if self.mode == "full":
